@@ -165,6 +165,39 @@ Definition planeCylinder (margin : T) (pos1 : vec3 T) (mat1 : mat3 T)
     c1 :: c2 ++ c34
   else [].
 
+(* ---- mjc_SphereCylinder; size2 = (radius, half-height).  Three arms: side (sphere-sphere against the axis point), cap
+   (plane-sphere against the cap plane, normal flipped because the sphere is geom 1), corner (sphere-sphere against the rim point);
+   when the sphere centre is inside the cylinder the nearer of cap and side is chosen *)
+Definition flipNormal (c : precon T) : precon T :=
+  let '(d, p, n, t) := c in (d, p, scl3 n (- none), t).
+Definition sphereCylinder (margin : T) (pos1 : vec3 T) (mat1 : mat3 T) (r1 : T)
+                          (pos2 : vec3 T) (mat2 : mat3 T) (radius height : T) : list (precon T) :=
+  let axis := zaxis mat2 in
+  let vec := sub3 pos1 pos2 in
+  let x := dot3 axis vec in
+  let a_proj := scl3 axis x in
+  let p_proj := sub3 vec a_proj in
+  let p_proj_sqr := dot3 p_proj p_proj in
+  let side0 := nabs x <? height in
+  let cap0 := p_proj_sqr <? radius * radius in
+  let deep := side0 && cap0 in
+  (* deep penetration (sphere origin inside cylinder): disable one collision type *)
+  let capNearer := (height - nabs x) <? (radius - nsqrt p_proj_sqr) in
+  let side := if deep then negb capNearer else side0 in
+  let cap := if deep then capNearer else cap0 in
+  if side then rawSphereSphere margin pos1 mat1 r1 (add3 a_proj pos2) mat2 radius
+  else if cap then
+    let '(m0, m1, m2, m3, m4, m5, m6, m7, m8) := mat2 in
+    let flipmat := (- m0, m1, - m2, - m3, m4, - m5, - m6, m7, - m8) in
+    let top := nzero <? x in
+    let pos_cap := add3 pos2 (scl3 axis (if top then height else - height)) in
+    map flipNormal (rawPlaneSphere margin pos_cap (if top then mat2 else flipmat) pos1 r1)
+  else
+    (* corner: point sphere at the rim *)
+    let rim := scl3 p_proj (radius / nsqrt p_proj_sqr) in
+    let corner := add3 (add3 (scl3 axis (if nzero <? x then height else - height)) rim) pos2 in
+    rawSphereSphere margin pos1 mat1 r1 corner mat2 nzero.
+
 (* ---- mju_makeFrame(frame): x-axis = frame[0..2] (normal), y-axis = frame[3..5] (tangent, may be
    zero).  None models mjERROR("xaxis of contact frame undefined"). *)
 Definition defaultY (x : vec3 T) : vec3 T :=
